@@ -112,10 +112,14 @@ P = {
                   "fail validation, and the finalizer across key-store reloads); an identical request after an allowed one is answered "
                   "without a remote call, and what a look-up stores is what every later look-up of that key receives after any "
                   "sequence of other look-ups and stores (entries are stable; checked on the real in-memory backend with A B A / "
-                  "A B C A B histories of every caching mechanism). The guard of F4 is exact (equal pre-image bytes of different writes), the guards of F6/F7 fire "
+                  "A B C A B histories of every caching mechanism). The guard of F4 is exact (equal pre-image bytes of different writes), the guard of F7 fires "
                   "only for two look-ups that share a key; two proved witnesses (one kind; three kinds with values of different lengths) "
-                  "show the hypotheses are satisfiable. Every open finding (F4, F6, F7) has a guard and a proved witness; the repaired "
-                  "ones (F1, F2, F3, F5, F8, F9, F10, F11) are model switches with the pinned behaviour kept as refutation. The model is "
+                  "show the hypotheses are satisfiable. Every open finding (F4, F7) has a guard and a proved witness; the repaired "
+                  "ones (F1, F2, F3, F5, F6, F8, F9, F10, F11) are model switches with the pinned behaviour kept as refutation "
+                  "(C11_F6_refuted is about the key layout before 0b950ef). C11_cache_transparent_repaired6 is the statement about the "
+                  "code as it is: since 0b950ef the keys of the generic contextualizer and the generic authenticator cover the forwarded "
+                  "headers and cookies with their values (the authenticator's also its payload template), so no F6 hypothesis is left; "
+                  "its F4 guard also covers the two new digests over forwarded names and values. The model is "
                   "tied to the code by running 450+300 (quick) / 6000+3000 (thorough) generated histories per run through the real "
                   "mechanisms with a recording cache and comparing inside Coq which look-ups share a key, hits, remote call counts, "
                   "decisions and upstream headers; the property verdict compares what the real code returned with the cache against "
@@ -123,11 +127,13 @@ P = {
     "level_note": "Trusted: Coq kernel/vm_compute; the correspondence harness (generator, echo/token/JWKS servers, recording cache, "
                   "rendering); SHA-256 as a parameter (observed digests; injectivity assumed only where stated); map order, "
                   "json.Marshal, JWK thumbprints, the RFC 7234 parser, the template fragment and the CEL fragment as listed. Open "
-                  "findings observed on every run (corpus): C11-F4 (delimiter-less concatenation), F6 (forwarded header/cookie values, "
-                  "generic authenticator payload not in key), F7 (.Outputs in endpoint templates not in key). Fixed and modelled as "
+                  "findings observed on every run (corpus): C11-F4 (delimiter-less concatenation; a repair candidate is fixes/C11-F4.diff, "
+                  "not applied: the defect sits at 14 sites), F7 (.Outputs in endpoint templates not in key; no repair without editing "
+                  "a unit test that pins the key). Fixed and modelled as "
                   "switches: F1 9b4883e, F2 deaddf0, F3 abe584c, F5 d9caf75, F8 and F9 12fdf68 (httpcache: only GET/HEAD looked up and "
                   "stored, no response with Vary stored), F10 abc25e7 (session lifespan asserted on a hit), F11 d20d7cd (a cached JWK "
-                  "that fails validation is ignored and fetched again). Not covered: the claims template of the jwt finalizer beyond "
+                  "that fails validation is ignored and fetched again), F6 0b950ef (forwarded header/cookie names and values, and the "
+                  "generic authenticator's payload template, are part of the keys). Not covered: the claims template of the jwt finalizer beyond "
                   ".Subject.ID/.Outputs, http_message_signatures' hash, introspection via metadata_endpoint, key collisions ACROSS "
                   "kinds of mechanisms on one URL (excluded by the F4 guard on the endpoint level), the redis cache backend. Aliasing of stored "
                   "entries through sync.Pool'ed buffers is caught on the in-memory backend but depends on the scheduler handing the buffer back.",
